@@ -25,8 +25,8 @@ LAYER = {1: "equal-at-birth: the clone's part map is not the original's at the t
          6: "part-map: the operated document is not in the state the model predicts",
          7: "result: result differs from the model's",
          8: "bookkeeping: the invariant the theorems assume (unique keys, current folder time stamps, cached XML parts only) is lost"}
-WEIGHTS = dict(get=2, touch=3, edit=5, set=2, setxml=2, setnew=1, **{"del": 2}, addfile=2, save=3, swap=4, clone2=1)
-PRE = dict(get=2, touch=3, edit=5, set=2, setxml=2, **{"del": 2}, addfile=1, save=1, saveself=1)
+WEIGHTS = dict(get=2, touch=3, edit=5, editobj=2, set=2, setxml=2, setnew=1, **{"del": 2}, addfile=2, save=3, swap=4, clone2=1)
+PRE = dict(get=2, touch=3, edit=5, editobj=2, addobject=1, set=2, setxml=2, **{"del": 2}, addfile=1, save=1, saveself=1)
 
 
 def make_histories(tier, rng):
@@ -56,6 +56,19 @@ def make_histories(tier, rng):
                    dict(op="swap"), dict(op="save", packaging="zip", target="buf", pretty=False), dict(op="reopen", r=1)])
         hs.append([dict(op="copyopen", src=s), dict(op="save", packaging="folder", target="path", pretty=False), dict(op="reopen", r=1), dict(op="touch", name="meta.xml"),
                    dict(op="clone2"), dict(op="get", r=3), dict(op="touch", name="content.xml"), dict(op="save", packaging="zip", target="buf", pretty=False), dict(op="reopen", r=1)])
+    # XML parts outside the five main names (embedded objects; the part class is chosen by the base name): fetched / edited in
+    # memory, then clone / save / reopen in every order
+    objs = [s for s in S if s.endswith("chart.odt")]
+    ostarts = [(dict(op="copyopen", src=s), False) for s in objs] + [(dict(op="open", src=s, buf=True), False) for s in objs] + [(dict(st), True) for st in starts[:2]]
+    SVB = dict(op="save", packaging="zip", target="buf", pretty=False)
+    for st, gen in ostarts:
+        pre = [dict(op="addobject", r=1)] if gen else []
+        for kinds in (["editobj"], ["touch", "editobj"], ["editobj", "editobj"]):
+            E = [dict(op=k, r=rng.randrange(1 << 30)) for k in kinds]
+            hs.append([dict(st)] + pre + E + [dict(op="clone2"), dict(op="editobj", r=rng.randrange(1 << 30)), dict(op="swap"), dict(op="editobj", r=rng.randrange(1 << 30)),
+                       dict(SVB), dict(op="swap"), dict(SVB), dict(op="reopen", r=1), dict(op="editobj", r=3)])
+            hs.append([dict(st)] + pre + E + [dict(SVB), dict(op="editobj", r=rng.randrange(1 << 30)), dict(op="clone2"), dict(SVB), dict(op="reopen", r=1), dict(op="touch", r=5)])
+            hs.append([dict(st)] + pre + [dict(op="clone2")] + E + [dict(op="clone2"), dict(op="swap"), dict(op="editobj", r=7), dict(SVB)])
     for st in starts:
         hs.append([dict(st), dict(op="edit", name="content.xml", how="par", arg="x"), dict(op="clone2"), dict(op="clone2"), dict(op="edit", name="meta.xml", how="title", arg="t"),
                    dict(op="swap"), dict(op="addfile", r=3), dict(op="swap"), dict(op="save", packaging="zip", target="buf", pretty=False)])
